@@ -360,15 +360,17 @@ def direction_b(ck):
     recs = [r for r in recs if r["events"]]
     tf = os.path.join(ck.tmp, "c02_traces.json")
     cfg = write_cfg(os.path.join(ck.tmp, "c02_trace.cfg"), spec="Spec", deadlock=True)
-    todo = recs
+    from ..core import batches
     rejected = 0
-    while todo:
+    queue = batches(recs, lambda r: len(r["events"]) + 2)
+    while queue:
+        todo = queue.pop(0)
         json.dump(todo, open(tf, "w"))
         res = run_tlc(TRACE_SPEC, cfg, workers=1, env={"TRACE_FILE": tf}, timeout=3600)
         ck.add_tlc(res, "trace validation of %d recorded lookup traces" % len(todo))
         if res.ok:
             ck.traces += len(todo)
-            break
+            continue
         if res.violated != "deadlock" or not res.error_trace:
             raise MachineryError("trace validation failed unexpectedly: " + res.error_text[:2000])
         st = res.error_trace[-1][1]
@@ -379,7 +381,8 @@ def direction_b(ck):
         ck.traces += t - 1
         ck.violation("lookup-trace-rejected", "%s: lookup #%d %r is not answered as the specification requires (first section listing the "
                      "object / same value as the earlier miss)" % (tr["label"], e, ev), {"kind": "trace", "label": tr["label"], "event": ev})
-        todo = todo[t:]
+        if todo[t:]:
+            queue.insert(0, todo[t:])
         if rejected >= 3:
             break
     ck.extra["lookup_events_validated"] = sum(len(r["events"]) for r in recs)
